@@ -21,13 +21,13 @@ EXT = {"json": "json", "yaml": "yaml", "toml": "toml", "env": "env", "flags": "t
 FAULT_KINDS = ["eisdir", "enospc", "efbig", "nonutf8_source", "dangling_source"]
 PROBES = ["dual_built_before_importer", "dual_built_after_importer", "shared_lib_two_entries", "failing_first", "failing_middle",
           "failing_last", "same_basename_pair", "second_run_over_artifacts", "listed_twice", "dir_walk_order_differs_from_sorted",
-          "respelled_argument", "failing_lib_imported", "directory_and_files_mixed", "symlinked_template_pair", "shared_data_included_under_two_types", "library_imports_its_sibling_by_name"]
+          "respelled_argument", "failing_lib_imported", "directory_and_files_mixed", "symlinked_template_pair", "shared_data_included_under_two_types", "library_imports_its_sibling_by_name", "false_assert_in_imported_file"]
 TIERS = {
     "quick": {"runs": 230, "wall_cap": 210},
     "thorough": {"runs": 3500, "wall_cap": 3300, "reexecute": 60},
 }
 FAILS = ["syntax", "type", "runtime", "runtime_opaque", "convert", "missing_import", "post_out", "lazy_missing_import", "lazy_broken_import",
-         "strict_only_field", "strict_only_env", "convert_late_xml", "convert_late_yamlmulti", "div_zero", "mod_zero", "format_too_few_args"]
+         "strict_only_field", "strict_only_env", "convert_late_xml", "convert_late_yamlmulti", "div_zero", "mod_zero", "format_too_few_args", "type_static_only"]
 SPELL = ["plain", "dot", "dotdot", "redundant", "abs"]
 
 
@@ -51,7 +51,9 @@ def generate(rng, tier, idx):
         f = {"path": path, "role": role, "uid": "u%d%s" % (i, rng.token(5)), "shape": rng.choice(["int", "str"]),
              "out": None, "imports": [], "std": rng.chance(25), "fail": None,
              # the project's one data file, included as text or decoded
-             "include": rng.weighted([(None, 7), ("str", 1), ("json", 1), ("yaml", 1)])}
+             "include": rng.weighted([(None, 7), ("str", 1), ("json", 1), ("yaml", 1)]),
+             # an assert statement: evaluated and recorded, but `ucg build` does not judge by it
+             "asserts": rng.weighted([(None, 8), ("true", 1), ("false", 2)])}
         if role in ("entry", "dual"):
             f["out"] = rng.weighted([("json", 4), ("yaml", 3), ("toml", 2), ("env", 1), ("flags", 1)])
         if role == "failing":
@@ -199,6 +201,8 @@ def render_file(world, i, root_abs):
     if f.get("reexport") and f["imports"]:
         L.append("let n = i0.n + 100;")     # typed re-export of the sibling's value
     L.append("let deps = " + (" + ".join(deps) if deps else "[]") + ";")
+    if f.get("asserts"):
+        L.append('assert {ok = %s, desc = "assert-%s"};' % (f["asserts"], f["uid"]))
     inc = f.get("include")
     if inc:
         rel = os.path.relpath("shared_data.json", os.path.dirname(f["path"]) or ".")
@@ -220,6 +224,9 @@ def render_file(world, i, root_abs):
         L.append('let broken = idf(1) + idf("a");')
     elif fail == "missing_import":
         L.append('let broken = import "./does-not-exist-%s.ucg";' % f["uid"])
+    elif fail == "type_static_only":
+        # only the static checker objects: the VM would concatenate the two lists without complaint
+        L.append('let broken = [1, 2] + ["a"];')
     elif fail == "div_zero":
         L.append("let idf = func (x) => x;")
         L.append("let broken = 10 / idf(0);")
@@ -449,6 +456,8 @@ def execute(world, sb, res):
         res.probe("shared_data_included_under_two_types")
     if any(f.get("reexport") for f in files):
         res.probe("library_imports_its_sibling_by_name")
+    if any(files[t].get("asserts") == "false" for t in importers):
+        res.probe("false_assert_in_imported_file")
 
     def closure(i, seen=None):
         seen = seen if seen is not None else set()
